@@ -125,9 +125,9 @@ func writeEvidence(prop, tier string, seed uint64, results []indexedResult, wall
 		"wall_s":      wall,
 		"violations":  nViol,
 	}
-	os.MkdirAll("/verif/evidence", 0o755)
+	os.MkdirAll(evidenceDir(), 0o755)
 	b, _ := json.MarshalIndent(ev, "", " ")
-	os.WriteFile(fmt.Sprintf("/verif/evidence/%s.json", prop), b, 0o644)
+	os.WriteFile(fmt.Sprintf("%s/%s.json", evidenceDir(), prop), b, 0o644)
 	return sum
 }
 
